@@ -4,8 +4,13 @@
 verus! {
 //@include prelude/bytes.rs
 //@include prelude/flags.rs
+//@include prelude/fd.rs
 //@include prelude/path.rs
+//@include prelude/errbase.rs
 //@include prelude/pathspec.rs
+use std::rc::Rc;
+use std::collections::VecDeque;
+//@include prelude/vecdeque_is_empty.rs
 //@include prelude/symlink_stack_spec.rs
 //@broadcast-here
 pub mod fmt { pub use core::fmt::Debug; }
